@@ -88,7 +88,7 @@ def _cases(draw, tier):
         elif len(toks) >= 2:
             i = min(i, len(toks) - 2)
             toks = toks[:i] + [toks[i + 1], toks[i]] + toks[i + 2:]
-    return {'kind': 'tok', 'layer': layer, 'tokens': toks, 'form': draw(st.integers(1, 2))}
+    return {'kind': 'tok', 'layer': layer, 'tokens': toks, 'form': draw(st.integers(0, 2))}
 
 
 def strategy(tier):
